@@ -267,3 +267,50 @@ Theorem C02_completion_instance :
                Proofs.Completion.ThreePieces.input Proofs.Completion.ThreePieces.pretext = Ok rs.
 Proof. exact Proofs.Completion.three_piece_map_completes. Qed.
 Print Assumptions C02_completion_instance.
+
+(* ========================================================================
+   THE PRETEXT-ORDER CLAUSE and the layout of the output, for EVERY map: the
+   results that take part in the output are, in store order, a SUB-SEQUENCE of
+   the baits of the map in file order (Pretext scaffolds in file order, baits
+   in row order), and every fused output scaffold is the join -- join gap
+   between consecutive pieces -- of the pieces carrying its key in that order,
+   the left-over scaffolds last.  Hence two pieces that share a destination
+   follow each other in Pretext order (pair form below). *)
+From Tola Require Proofs.PretextOrder.
+Theorem C02_pretext_order : forall g prefix bpt input pretext rs fused,
+  remap_to_input repaired g prefix bpt input pretext = Ok rs ->
+  fuse_all repaired g rs = Ok fused ->
+  exists results,
+    mapM (get_ovr (b_store (rs_b rs))) (b_added (rs_b rs)) = Ok results
+    /\ Proofs.PretextOrder.subseq (map o_bait results) (Proofs.CoreKept.baits_of pretext)
+    /\ let pieces := map piece_of_result results ++ map (fun sc => (sc, false)) (rs_left rs) in
+       forall b, In b fused ->
+         sc_rows b = Proofs.JoinGaps.join_rows g (map (fun p => sc_rows (fst p))
+                       (filter (fun p => match sc_rows (fst p) with
+                                         | [] => false
+                                         | _ => fuse_key_eqb (Proofs.JoinGaps.piece_key repaired (fst p))
+                                                             (Proofs.JoinGaps.piece_key repaired b)
+                                         end) pieces)).
+Proof. exact Proofs.PretextOrder.pretext_order. Qed.
+Print Assumptions C02_pretext_order.
+
+Theorem C02_pretext_order_pairs : forall g prefix bpt input pretext rs fused l1 id1 l2 id2 l3 r1 r2,
+  remap_to_input repaired g prefix bpt input pretext = Ok rs ->
+  fuse_all repaired g rs = Ok fused ->
+  b_added (rs_b rs) = l1 ++ id1 :: l2 ++ id2 :: l3 ->
+  get_ovr (b_store (rs_b rs)) id1 = Ok r1 ->
+  get_ovr (b_store (rs_b rs)) id2 = Ok r2 ->
+  o_rows r1 <> [] -> o_rows r2 <> [] ->
+  Proofs.PretextOrder.result_key r1 = Proofs.PretextOrder.result_key r2 ->
+  exists results b,
+    mapM (get_ovr (b_store (rs_b rs))) (b_added (rs_b rs)) = Ok results
+    /\ In b fused /\ Proofs.JoinGaps.piece_key repaired b = Proofs.PretextOrder.result_key r1
+    /\ (exists pre mid post,
+          sc_rows b = pre ++ to_scaffold_rows r1 ++ mid ++ to_scaffold_rows r2 ++ post)
+    /\ (exists p1 p2 p3,
+          map o_bait results = p1 ++ o_bait r1 :: p2 ++ o_bait r2 :: p3
+          /\ length p1 = length l1 /\ length p2 = length l2)
+    /\ Proofs.PretextOrder.subseq (map o_bait results) (Proofs.CoreKept.baits_of pretext)
+    /\ (exists q1 q2 q3, Proofs.CoreKept.baits_of pretext = q1 ++ o_bait r1 :: q2 ++ o_bait r2 :: q3).
+Proof. exact Proofs.PretextOrder.pretext_order_pairs. Qed.
+Print Assumptions C02_pretext_order_pairs.
